@@ -103,6 +103,9 @@ def _g3(ctx):
     fi = ctx.func(SYM, "get_stride_and_halo_of_einsum", R)
     cfg = ctx.cfg(fi)
     over = [s for s in fi.stmts() for t, v, _ in assigned_targets(s) if norm(t) == "shape[rank_var]" and isinstance(v, ast.Constant)]
+    writes = [s for s in fi.stmts() for t, v, _ in assigned_targets(s) if isinstance(t, ast.Subscript) and norm(t.value) == "shape"]
+    if not writes:
+        return _g3_closed_form(ctx, fi, R)
     ctx.require(len(over) == 1 and over[0].value.value == 1, R, "overwrite shape[rank_var] = 1")
     saved = [s for s in fi.stmts() for t, v, _ in assigned_targets(s) if isinstance(t, ast.Name) and norm(v) == "shape[rank_var]"]
     rest = [s for s in fi.stmts() for t, v, _ in assigned_targets(s) if norm(t) == "shape[rank_var]" and isinstance(v, ast.Name)]
@@ -127,13 +130,41 @@ def _g3(ctx):
     ctx.floor(R, 5)
 
 
+def _g3_closed_form(ctx, fi, R):
+    """no temporary overwrite: the halo must be the closed form of `occupancy at extent 1 minus 1` for a projection that is affine in the
+    rank variable (which stride = coeff(rank_var) already assumes): occupancy(shape) - 1 - stride * (shape[rank_var] - 1)"""
+    from ..norm import Normaliser
+    d = {}
+    for s in fi.stmts():
+        for t, v, _ in assigned_targets(s):
+            if isinstance(t, ast.Name) and v is not None:
+                d.setdefault(t.id, []).append(v)
+    full = [n for n, vs in d.items() if len(vs) == 1 and norm(vs[0]) == "compute_rank_occupancy(rank_projection, shape)"]
+    ctx.require(len(full) == 1 and len(d.get("halo", ())) == 1 and len(d.get("stride", ())) == 1, R, "closed-form halo: occupancy of the full shape, stride, halo each defined once")
+    ctx.check(norm(d["stride"][0]) == "rank_projection.coeff(rank_var)", R, fi, d["stride"][0], "stride is not the coefficient of the rank variable in the projection", "stride = coefficient of the rank variable")
+    N = Normaliser()
+    got = N.poly(d["halo"][0])
+    want = N.poly(ast.parse(f"{full[0]} - 1 - stride * (shape[rank_var] - 1)", mode="eval").body)
+    atoms = {a for mono, _ in got.monomials() for a, _ in mono}
+    ctx.require(atoms <= {full[0], "stride", "shape[rank_var]"}, R, f"closed-form halo over unrecognised atoms {sorted(atoms)}")
+    ctx.check(got == want, R, fi, d["halo"][0], f"halo is `{got!r}`; the occupancy at extent 1 minus 1 is `{want!r}` (occupancy substitutes extent-1 for each variable and adds 1): "
+              "strides/halos feed every tile-size and reuse formula", f"halo = {want!r}")
+    st = [s for s in fi.stmts() for t, v, _ in assigned_targets(s) if norm(t) == "tensor_stride_and_halo[rank, rank_var]"]
+    ctx.check(len(st) == 1 and norm(st[0].value) == "(stride, halo)", R, fi, st[0] if st else fi.node, "the (rank, rank variable) entry is not (stride, halo)", "entry = (stride, halo)")
+    ctx.ok(R, fi, fi.node, "no write to the caller's shape dict at all")
+    ctx.floor(R, 4)
+
+
 def check(ctx):
     _g1(ctx)
     _g2(ctx)
     _g3(ctx)
 
 
+_ORIG = '            for rank_var in rank_vars:\n                stride = rank_projection.coeff(rank_var)\n\n                # Careful: in-place mutation of cons_shape\n                original_shape = shape[rank_var]\n                shape[rank_var] = 1\n                halo = compute_rank_occupancy(rank_projection, shape) - 1\n                shape[rank_var] = original_shape\n\n'
 VARIANTS = [
+    {"kind": "F", "name": "closed-form-halo-wrong", "rule": "C24-G3", "edits": [(SYM, _ORIG, '            full_extent = compute_rank_occupancy(rank_projection, shape)\n            for rank_var in rank_vars:\n                stride = rank_projection.coeff(rank_var)\n                halo = full_extent - stride * shape[rank_var]\n')]},
+    {"kind": "S", "name": "closed-form-halo-right", "edits": [(SYM, _ORIG, '            full_extent = compute_rank_occupancy(rank_projection, shape)\n            for rank_var in rank_vars:\n                stride = rank_projection.coeff(rank_var)\n                halo = full_extent - 1 - stride * (shape[rank_var] - 1)\n')]},
     {"kind": "F", "name": "always-card-box", "rule": "C24-G1", "edits": [(ISL, "    data_space = get_tensor_data_space(workload, tensor)\n    if data_space.is_box():\n        return _card_box(data_space)", "    data_space = get_tensor_data_space(workload, tensor)\n    if True:\n        return _card_box(data_space)")]},
     {"kind": "F", "name": "card-box-extent-off-by-one", "rule": "C24-G2", "edits": [(ISL, "        dims.append(max_val - min_val + 1)", "        dims.append(max_val - min_val)")]},
     {"kind": "F", "name": "delete-restore", "rule": "C24-G3", "edits": [(SYM, "                shape[rank_var] = original_shape\n", "")]},
